@@ -104,72 +104,48 @@ def rule_W8(ctx):
 
 
 def rule_U5(ctx):
+    """lbuf_edit logs nothing for an edit that changes nothing: on every path to lbuf_opt, with
+    the values it is actually given (after the clamps to the buffer), `no text and no line to
+    delete` is impossible.  Decided over the paths with substitution, so the spelling and order
+    of the tests, locals and flipped comparisons are free -- but a test made on the bounds before
+    they are clamped does not help."""
     ctx.begin("U5", floor=1, what="no-op edits are recognised after clamping")
+    from ..bounds import path_states
+    from ..lin import feasible
     f = ctx.prog.func("lbuf_edit", file="lbuf.c")
-    cfg = f.cfg
-    p = [x["name"] for x in f.params]
-    buf, beg, end = p[1], p[2], p[3]
     opts = list(f.calls("lbuf_opt"))
     if not opts:
         raise AnalysisBroken("lbuf_edit does not call lbuf_opt")
-
-    def is_eq_test(c):
-        """leaf condition comparing beg with end: returns the truth value that means beg == end"""
-        c, t = negate_truth(c, True)
-        if c["k"] == "bin" and c["op"] in ("==", "!=") and {key(c["l"]), key(c["r"])} == {beg, end}:
-            return t if c["op"] == "==" else (not t)
-        return None
-
-    def is_buf_test(c):
-        """truth value of the original condition that means buf != NULL"""
-        c, t = negate_truth(c, True)
-        if key(c) == buf:
-            return t
-        if c["k"] == "bin" and c["op"] in ("==", "!=") and key(strip_casts(c["l"])) == buf:
-            from ..callgraph import is_null
-            if is_null(c["r"]):
-                return t if c["op"] == "!=" else (not t)
-        return None
-
-    def is_clamp_test(c):
-        k_ = key(c)
-        return "ln_n" in k_ and (beg in k_ or end in k_) and c["k"] == "bin" and c["op"] in (">", ">=", "<", "<=")
-
-    bad = None
-    order_bad = None
     n_p = 0
+    bad = und = None
     for o in opts:
-        for items in paths_to(cfg, cfg.entry, o["id"]):
+        try:
+            sts = path_states(f, o["id"])
+        except OverflowError:
+            raise AnalysisBroken("lbuf_edit: too many paths")
+        for subst, hyps, items in sts:
             n_p += 1
-            guarded = False
-            seen_clamps = set()
-            for it in items:
-                if it[0] != "br":
-                    continue
-                c = f.nodes[it[1]]
-                if is_clamp_test(c):
-                    seen_clamps.add(key(c))
-                e = is_eq_test(c)
-                if e is not None:
-                    if it[2] != e:      # beg != end on this path
-                        guarded = True
-                    if len(seen_clamps) < 2:
-                        order_bad = c
-                b = is_buf_test(c)
-                if b is not None and it[2] == b:
-                    guarded = True
-            if not guarded:
-                bad = items
+            lin_ = subst["__linfn__"]
+            tb, nd = lin_(strip_casts(o["args"][1])), lin_(strip_casts(o["args"][3]))
+            if tb is None or nd is None:
+                und = "arguments of lbuf_opt not linear"
+                continue
+            if feasible(list(hyps) + [tb, tb.scale(-1), nd, nd.scale(-1)]):
+                if "__havoc__" in subst or "__callhavoc__" in subst:
+                    und = "a path with unknown values"
+                else:
+                    bad = items
     if bad is not None:
+        desc = ", ".join("%s=%s" % (key(f.nodes[x[1]])[:30], x[2]) for x in bad if x[0] == "br")
         ctx.violation("lbuf_edit", "no-op edit leaves no history entry",
-                      "a path reaches lbuf_opt on which neither `beg != end` nor `buf != NULL` is known: an "
-                      "empty delete would push an undo step and cut the redo branch", f.loc(opts[0]))
-    elif order_bad is not None:
-        ctx.violation("lbuf_edit", "no-op edit leaves no history entry",
-                      "`%s` is tested before both bounds are clamped to the buffer: a delete past the end of "
-                      "the buffer is logged as a step although it changes nothing" % key(order_bad), f.loc(order_bad))
+                      "a path reaches lbuf_opt on which `no text and nothing to delete` is still possible for the "
+                      "values it is given (%s): an empty delete -- also one past the end of the buffer, empty only "
+                      "after the bounds are clamped -- would push an undo step and cut the redo branch" % desc,
+                      f.loc(opts[0]))
+    elif und:
+        ctx.inconclusive("lbuf_edit", "no-op edit leaves no history entry", und, f.loc(opts[0]))
     else:
-        ctx.ok("lbuf_edit", "on all %d paths to lbuf_opt the edit is not a no-op, judged after both clamps" % n_p)
+        ctx.ok("lbuf_edit", "on all %d paths to lbuf_opt the edit is not a no-op, judged on the clamped values" % n_p)
 
 
 def rule_X5(ctx):
